@@ -93,6 +93,7 @@ class OptV(V):  # Optional[<shape>]
 class BytesV(V):
     n: z3.ExprRef  # length (>= 0)
     at: object  # callable: z3 int -> z3 int (byte value)
+    bounds: tuple = ()  # offsets at which concatenated segments start (instantiation anchors: "segment lengths in play", R8)
 
 
 @dataclass
@@ -179,7 +180,8 @@ def zeros(n) -> BytesV:
 
 
 def concat(x: BytesV, y: BytesV) -> BytesV:
-    return BytesV(x.n + y.n, lambda i, x=x, y=y: z3.If(i < x.n, x.at(i), y.at(i - x.n)))
+    bounds = tuple(x.bounds) + ((x.n,) if not (z3.is_int_value(x.n) and x.n.as_long() == 0) else ()) + tuple(x.n + b for b in y.bounds)
+    return BytesV(x.n + y.n, lambda i, x=x, y=y: z3.If(i < x.n, x.at(i), y.at(i - x.n)), bounds[-6:])
 
 
 EMPTY = BytesV(z3.IntVal(0), lambda i: z3.IntVal(0))
@@ -285,6 +287,11 @@ class Engine:
 
     # ---- obligations
     def ob(self, kind, st: State, goal, node=None, tag=None, probes=None):
+        # segment boundaries of the byte values in scope are instantiation anchors (byte class)
+        for v in list(st.env.values()) + list(st.ghost.values()) + ([st.ghost.get("$rv")] if "$rv" in st.ghost else []):
+            b = v.joined if isinstance(v, ListV) else v
+            if isinstance(b, BytesV) and b.bounds:
+                st.anchor(*[z3.simplify(x) for x in b.bounds], cls="byte")
         nm = f"{self.fn}/{kind}"
         if node is not None and tag is None:
             nm += f"#{self.ordinal(node)}"
@@ -689,6 +696,8 @@ class Engine:
         bn, bv = self.opt_parts(b)
         if av is None and bv is None:
             return NoneV()
+        if not isinstance(a, (OptV, NoneV)) and not isinstance(b, (OptV, NoneV)):
+            raise Unsupported(f"cannot merge {type(a).__name__} with {type(b).__name__}@{getattr(n, 'lineno', 0)}")
         inner = self.merge(c, av if av is not None else bv, bv if bv is not None else av, n)
         return OptV(z3.If(c, an, bn), inner)
 
@@ -731,6 +740,9 @@ class Engine:
 
     def ev_Subscript(self, n, st):
         base = self.ev(n.value, st)
+        if isinstance(base, OptV) and isinstance(base.val, BytesV):
+            self.may_raise("TypeError", st, z3.Not(base.is_none), n)
+            base = base.val
         if isinstance(base, BytesV):
             if isinstance(n.slice, ast.Slice):
                 if n.slice.step is not None:
@@ -1269,6 +1281,14 @@ class Engine:
                 outs.append((e, out))
         outs.append((exit_, None))
         return outs
+
+    def st_With(self, s, st):
+        # context managers are ignored (locks: A1 single-threaded; the managed object is evaluated for its obligations)
+        for it in s.items:
+            v = self.ev(it.context_expr, st)
+            if it.optional_vars is not None:
+                self.assign(it.optional_vars, v, st, s)
+        return self.run(s.body, st)
 
     def st_Try(self, s, st):
         # try/except: exceptions raised in the body that match a handler continue in the handler
